@@ -6,6 +6,7 @@ import OV.Drivers.Loop
        carrier of the caller's object after the call (`arg`) and of the produced model (`res`).
     `C15 route <api> <proto|ir>` → `<callee parameter><-<caller option>,…` (the option routing of that entry)
     `C15 touches <api>`          → comma-separated carriers of the API's frame
+    `C15 replace <proto|ir> <0|1>` → `ret=…;changed=<0|1>` for replace_functions on a model with (1) / without (0) local functions
     `C15 inline <0|1>`           → `ret=…;changed=<0|1>` (1 = model-local functions present)
     api ∈ optimize fold_constants remove_unused_nodes remove_unused_functions rewrite_empty rewrite_rules
           convert_version convert_version_old replace_functions -/
@@ -46,6 +47,16 @@ def handle (args : List String) : String :=
     match parseApi api with
     | some f => ",".intercalate ((Carrier.all.filter (touches f)).map Carrier.name)
     | none => "bad-op"
+  | ["replace", entry, b] =>
+    let hasF : Rec String → Bool := fun _ => b == "1"
+    (match entry with
+     | "proto" =>
+       let o := protoReplace symSerde symT hasF symOpts symArg
+       "ret=" ++ showRet o.ret ++ ";changed=" ++ (if o.argAfter Carrier.nodes == "M" then "0" else "1")
+     | "ir" =>
+       let o := irReplace symT hasF symOpts symArg
+       "ret=" ++ showRet o.ret ++ ";changed=" ++ (if o.argAfter Carrier.nodes == "M" then "0" else "1")
+     | _ => "bad-op")
   | ["inline", b] =>
     let o := inlinePath (fun _ => b == "1") (symT .optimize symOpts) symArg
     "ret=" ++ showRet o.ret ++ ";changed=" ++ (if o.argAfter Carrier.nodes == "M" then "0" else "1")
